@@ -535,6 +535,10 @@ class Pipeline:
                 self._func_defaults(func) | flat_scope_kwargs | func._bound,
                 root_args,
             )
+            if cache_key is not None and any(k in self.output_to_func for k in flat_scope_kwargs):
+                # An intermediate value was provided, so the root arguments alone do not
+                # determine the result: neither read from nor write to the cache.
+                cache_key = None
             return_now, result_from_cache = get_result_from_cache(
                 func,
                 cache,
